@@ -82,6 +82,7 @@ class CallRec(object):
     self.issued_at = None
     self.ar = None
     self.first = None          # (time, kind, payload, net_seq)
+    self.first_snapshot = None
     self.issue_error = None
     self.before_open = False
 
@@ -90,12 +91,23 @@ class CallRec(object):
 
 
 def classify(ar):
-  if ar.exception is None:
-    return 'value', ar.value
-  ex = ar.exception
-  if isinstance(ex, ScalesTimeout):
+  """The completion as a caller sees it (ar.get()), not just the .exception attribute:
+  gevent lets a later set() / set_exception() leave the two views inconsistent."""
+  try:
+    v = ar.get(block=False)
+  except ScalesTimeout as ex:
     return 'timeout', ex
-  return 'error', ex
+  except BaseException as ex:
+    return 'error', ex
+  return 'value', v
+
+
+def snapshot(ar):
+  """Everything a holder of the result can observe; must not change after the first completion."""
+  k, v = classify(ar)
+  ex = ar.exception
+  return (k, repr(v) if k == 'value' else '%s:%s' % (type(v).__name__, v),
+          None if ex is None else '%s:%s' % (type(ex).__name__, ex), repr(ar.value))
 
 
 class Trace(object):
@@ -165,6 +177,8 @@ def run_world(plan, world=None):
       srv.default_connect = [c[0]] + [x / 1000.0 for x in c[1:]]
     if sp.get('initially_down'):
       srv.up = False
+    if sp.get('refuse_delay_ms'):
+      srv.down_refuse_delay = sp['refuse_delay_ms'] / 1000.0
     tr.peers[port] = peer
     tr.servers[port] = srv
     if sp.get('chunks'):
@@ -290,7 +304,27 @@ def run_world(plan, world=None):
       if rec.first is None:
         k, v = classify(a)
         rec.first = (loop.now(), k, v, net.seq)
+        rec.first_snapshot = snapshot(a)
     rec.ar.rawlink(done)
+
+  coc = plan.get('close_on_connect')
+  if coc:
+    st_c = {'n': 0}
+
+    def on_connect(sock):
+      if tr.closed_at is not None or getattr(tr, 'base', None) is None:
+        return
+      st_c['n'] += 1
+      if st_c['n'] == coc['nth']:
+        def closer():
+          gevent.sleep(coc['delay_ms'] / 1000.0)
+          if tr.closed_at is None:
+            client.DispatcherClose()
+            tr.closed_at = loop.now()
+            tr.close_seq = net.seq
+            tr.closed_during_connect = True
+        gevent.spawn(closer)
+    net.on_connect = on_connect
 
   if plan.get('wait_open', True):
     # let the client finish opening (bounded) before the timeline starts
@@ -345,10 +379,11 @@ def run_world(plan, world=None):
       tr.gate_state['armed'] = False
       tr.gate_evt.set()
     elif k == 'close':
-      client.DispatcherClose()
-      tr.closed_at = loop.now()
-      settle()
-      tr.close_seq = net.seq
+      if tr.closed_at is None:
+        client.DispatcherClose()
+        tr.closed_at = loop.now()
+        settle()
+        tr.close_seq = net.seq
   end = base + plan['run_ms'] / 1000.0
   run_until(end)
   if tr.gate_evt is not None:
@@ -357,9 +392,11 @@ def run_world(plan, world=None):
   tr.end = loop.now()
   # final snapshot: a late reply, fault or timer must not have changed anything
   tr.final = {}
+  tr.final_snapshot = {}
   for rec in calls:
     if rec.ar is not None and rec.ar.ready():
       tr.final[rec.id] = classify(rec.ar)
+      tr.final_snapshot[rec.id] = snapshot(rec.ar)
   if tr.closed_at is None:
     try:
       client.DispatcherClose()
